@@ -25,9 +25,14 @@ Record bastep := mkBStep {
   bs_bal : bal
 }.
 
+(* OECaseM = OECase plus the metadata configuration (minter Config.nft_data) and, for every
+   token the collection holds at the end of the history (ascending id), what the
+   collection stores for it: owner, token_uri, extension (AllNftInfo) *)
 Inductive oecase :=
 | OECase (vr : ovariant) (init : ostate) (b : bal) (accts : list addr) (steps : list oestep)
-| BaseCase (init : bstate) (b : bal) (steps : list bastep).
+| BaseCase (init : bstate) (b : bal) (steps : list bastep)
+| OECaseM (nft : nft_cfg) (vr : ovariant) (init : ostate) (b : bal) (accts : list addr) (steps : list oestep)
+          (stored : list omint).
 
 Definition opt_n (o : option N) : list N := match o with Some x => [1; x] | None => [0; 0] end.
 Definition len {A} (l : list A) : N := N.of_nat (length l).
@@ -121,11 +126,52 @@ Fixpoint base_run_steps (s : bstate) (b : bal) (steps : list bastep) (i : N) : o
       end
   end.
 
-(* for diagnosis: index of the first diverging step *)
+(* the same run through `ostep_nft`, collecting what the collection was asked to store
+   (oldest first); result: first diverging step, if any, and the collected mints *)
+Definition oe_world_step_nft (c : nft_cfg) (vr : ovariant) (s : ostate) (b : bal) (st : oestep)
+  : result (ostate * bal * list omsg * list omint) :=
+  let e := os_env st in
+  do b1 <- attach b (e_sender e) (e_contract e) (e_funds e);
+  do r <- ostep_nft c vr s e (os_fp st) (os_wv st) (os_op st);
+  let '(s', ms, mm) := r in
+  do b2 <- apply_bmsgs (e_contract e) b1 (bank_of ms);
+  Ok (s', b2, ms, mm).
+
+Fixpoint oe_run_steps_nft (c : nft_cfg) (vr : ovariant) (accts : list addr) (s : ostate) (b : bal)
+         (steps : list oestep) (i : N) (acc : list omint) : option N * list omint :=
+  match steps with
+  | [] => (None, rev acc)
+  | st :: rest =>
+      match oe_world_step_nft c vr s b st with
+      | Err =>
+          if os_ok st then (Some i, rev acc)
+          else if list_eqb N.eqb (oe_observe vr s (os_fp st) (os_wv_after st) accts) (os_obs st)
+                  && bal_agrees b (os_bal st)
+               then oe_run_steps_nft c vr accts s b rest (i + 1) acc else (Some i, rev acc)
+      | Ok (s', b', ms, mm) =>
+          if negb (os_ok st) then (Some i, rev acc)
+          else if option_eqb pair_eqb (nft_of ms) (os_minted st)
+                  && list_eqb N.eqb (oe_observe vr s' (os_fp st) (os_wv_after st) accts) (os_obs st)
+                  && bal_agrees b' (os_bal st)
+               then oe_run_steps_nft c vr accts s' b' rest (i + 1) (rev_append mm acc) else (Some i, rev acc)
+      end
+  end.
+
+Definition omint_eqb (x y : omint) : bool :=
+  (om_id x =? om_id y) && (om_owner x =? om_owner y) &&
+  option_eqb N.eqb (om_uri x) (om_uri y) && option_eqb N.eqb (om_ext x) (om_ext y).
+
+(* for diagnosis: index of the first diverging step (the number of steps when only the
+   tokens stored by the collection differ from what the model sent) *)
 Definition sale_oe_diverges_at (c : oecase) : option N :=
   match c with
   | OECase vr init b accts steps => oe_run_steps vr accts init b steps 0
   | BaseCase init b steps => base_run_steps init b steps 0
+  | OECaseM nft vr init b accts steps stored =>
+      match oe_run_steps_nft nft vr accts init b steps 0 [] with
+      | (Some i, _) => Some i
+      | (None, mm) => if list_eqb omint_eqb mm stored then None else Some (len steps)
+      end
   end.
 
 Definition sale_oe_check (c : oecase) : bool :=
